@@ -70,7 +70,7 @@ func (d *c18drv) take(typ string, cfg c18cfg, phase string, x, y int) bool {
 	if n%int64(d.env.NShards) != int64(d.env.Shard) {
 		return false
 	}
-	if n%64 == 0 && !d.env.Deadline.IsZero() && time.Now().After(d.env.Deadline) {
+	if (n/int64(d.env.NShards))%64 == 0 && !d.env.Deadline.IsZero() && time.Now().After(d.env.Deadline) { // every 64 cases of this shard
 		d.res.Cap(fmt.Sprintf("deadline reached at case %d (type %s)", n, typ))
 		d.stop = true
 		return false
